@@ -335,6 +335,49 @@ def cli_pass(tier):
                         o[1], o[0], o[2], o[3][:100], ref[2], ref[3][:100], meta["lex"], meta["k"]), None, {"long": longline, "short": shortlines}), {})
         n += 1
     res.parts.append({"part": "cli-long-lines", "cases": res.evaluations})
+    # byte content: no byte sequence inside a string literal is reinterpreted because of where the reader's chunks start (first bytes
+    # of the file, of a continuation line of the literal, of the second / third chunk of a long line)
+    import itertools
+    alpha3 = (0xEF, 0xBB, 0xBF) if tier != "thorough" else (0xEF, 0xBB, 0xBF, 0xFE, 0xFF, 0x1A, 0x7F, 0x80)
+    seqs = [bytes(t) for l in (1, 2, 3) for t in itertools.product(alpha3, repeat=l)]
+    if tier != "thorough":
+        seqs += [bytes([b]) for b in (0xFE, 0xFF, 0x1A, 0x7F, 0x80)] + [b"\xFF\xFE", b"\xFE\xFF"]
+    ncont = 0
+    for seq in seqs:
+        lays = []
+        for off in (3, 1020, 1021, 1022, 1023, 1024, 2046, 3069):
+            pre = b"a" * (off - 5)
+            lays.append(("line-offset-%d" % off, b'x = "' + pre + seq + b'z";\nprint strlen(x);\nprint x;\n', pre + seq + b"z"))
+        lays.append(("continuation-line", b'x = "ab\n' + seq + b'z";\nprint strlen(x);\nprint x;\n', b"ab\n" + seq + b"z"))
+        lays.append(("second-continuation-line", b'x = "ab\n\n' + seq + b'\n' + seq + b'z";\nprint strlen(x);\nprint x;\n', b"ab\n\n" + seq + b"\n" + seq + b"z"))
+        lays.append(("statement-start", b'x = "q";\n/*' + seq + b'*/ x = "' + seq + b'";\nprint strlen(x);\nprint x;\n', seq))
+        for lay, text, content in lays:
+            want = (0, b"%d\n" % len(content) + content + b"\n")
+            path = os.path.join(sdir, "b.bloc")
+            with open(path, "wb") as f:
+                f.write(text)
+            for mode in ("file", "stdin"):
+                try:
+                    if mode == "file":
+                        p = subprocess.run([exe, path], stdin=subprocess.DEVNULL, stdout=subprocess.PIPE, stderr=subprocess.PIPE, env=env, timeout=20)
+                    else:
+                        p = subprocess.run([exe, "-"], input=text, stdout=subprocess.PIPE, stderr=subprocess.PIPE, env=env, timeout=20)
+                    got = (p.returncode, p.stdout)
+                except subprocess.TimeoutExpired:
+                    got = ("timeout", b"")
+                res.evaluations += 1
+                res.transitions += 1
+                res.nontrivial += 1
+                ncont += 1
+                res.digests.add(repr(("content", lay, mode, seq, got == want)).encode())
+                if got != want:
+                    key = "cli:content:%s:%s" % (lay, mode)
+                    e = res.viols.setdefault(key, {"count": 0, "first": None})
+                    e["count"] += 1
+                    if e["first"] is None:
+                        e["first"] = (Violation(key, "bloc %s: a string literal holding bytes %s at %s gives exit %s output %r, expected %r" % (
+                            mode, seq.hex(), lay, got[0], got[1][-60:], want[1][-60:]), None, {"text_hex": text.hex()}), {})
+    res.parts.append({"part": "cli-byte-content", "cases": ncont})
     # the reader of the interactive mode: the line-length sweep fed to `bloc -i`, against the library running the same statements
     from . import c19
     col = c19.Collector()
